@@ -10,6 +10,7 @@
 -/
 import Sq.Machine
 import SqLemmas.DecLemmas
+import SqLemmas.DivLemmas
 namespace SqProps.C08
 open Sq Sq.Dec
 
@@ -148,5 +149,29 @@ theorem point_one_plus_point_two :
 
 /-- -0 == 0; 1.0 == 1.00 -/
 example : Dec.eq ⟨true, 0, 0⟩ ⟨false, 0, 0⟩ = true ∧ Dec.eq ⟨false, 10, -1⟩ ⟨false, 100, -2⟩ = true := by decide +kernel
+
+/-! ### [B] division is correctly rounded (SqLemmas/DivLemmas.lean) -/
+
+/-- **the sticky digit suffices**: `num / den` with a last digit 0 or 5 bumped by one (what `__truediv__` computes for
+    an inexact division), rounded half-even at any digit position k ≥ 1, IS the half-even rounding of the rational
+    `num / den` at that position — for all naturals -/
+theorem sticky_digit_suffices (neg : Bool) (num den k : Nat) (hd : 0 < den) (hk : 1 ≤ k) (hr : num % den ≠ 0) :
+    roundDiv .halfEven neg (sticky num den) k = roundRat num (den * 10 ^ k) := sticky_round neg num den k hd hk hr
+
+/-- **div_correct**: for every pair of non-zero decimals whose quotient is inexact, what `/` hands to the context
+    rounding has at least 29 significant digits (so at least one digit is rounded away), and rounding it half-even at
+    any position k ≥ 1 gives exactly the half-even rounding of the TRUE quotient `divNum / divDen` at that position -/
+theorem div_correct (a b : Dec) (ha : a.coeff ≠ 0) (hb : b.coeff ≠ 0) (hr : divNum a b % divDen a b ≠ 0) :
+    29 ≤ (divPre a b).digits ∧
+    ∀ k, 1 ≤ k → roundDiv .halfEven (divPre a b).neg (divPre a b).coeff k = roundRat (divNum a b) (divDen a b * 10 ^ k) :=
+  ⟨divPre_digits a b ha hb hr, fun k hk => div_rounding_correct a b ha hb hr k hk⟩
+
+/-- … and an exact quotient is kept exactly (rounding it is rounding the true quotient) -/
+theorem div_exact (neg : Bool) (num den k : Nat) (hd : 0 < den) (hr : num % den = 0) :
+    roundDiv .halfEven neg (num / den) k = roundRat num (den * 10 ^ k) := exact_round neg num den k hd hr
+
+/-- non-vacuity: 1 / 3 is such an inexact division, 2 / 3 rounds up in the last place -/
+example : divNum ⟨false, 1, 0⟩ ⟨false, 3, 0⟩ % divDen ⟨false, 1, 0⟩ ⟨false, 3, 0⟩ ≠ 0 := by decide +kernel
+example : (Dec.div ⟨false, 2, 0⟩ ⟨false, 3, 0⟩).toOption = some ⟨false, 6666666666666666666666666667, -28⟩ := by decide +kernel
 
 end SqProps.C08
